@@ -78,7 +78,7 @@ def build(cfg, upto=None):
     def add(arb, i):
         it = wishbone.Interface(addr_width=cfg["aw"], data_width=cfg["dw"], granularity=cfg["igrans"][i],
                                 features=cfg["ifeats"][i], path=(f"i{i}",))
-        arb.add(it)
+        arb.add(it)            # (Arbiter.add() takes the interface itself: unlike Decoder.add() it does not document a flipped one)
         intrs.append(it)
     def refused_add(arb, k):
         """an add() the arbiter must refuse (other address width, or an initiator without the arbiter's err/rty outputs);
